@@ -241,8 +241,8 @@ def invariants(s):
                 stack.pop()
         if found:
             break
-    if forest_ok:
-        # C11 owner == reachability, C05 uniqueness
+    if True:
+        # C11 owner == reachability, C05 uniqueness (reach() is cycle-guarded, so these are well defined on corrupt forests too)
         member = {}
         for w, r in s['R'].items():
             rs = reach(s, r)
@@ -528,6 +528,16 @@ def expected(s0, op):
         had = op[2] in s['T'][op[1]][kind]
         m_set_links(s, op[1], [x for x in s['T'][op[1]][kind] if x != op[2]], kind)
         return [s], ('val', had)
+    if k in ('preds.remove_all', 'succs.remove_all'):
+        kind = k[:5]
+        flt = op[2]
+        if flt['kind'] in ('int', 'raising'):
+            return None, ANY
+        victims = [x for x in s['T'][op[1]][kind] if match_filter(s, x, flt)]
+        m_set_links(s, op[1], [x for x in s['T'][op[1]][kind] if x not in victims], kind)
+        return [s], ('labels', victims)
+    if k == 'linkview.use':
+        return expected(s0, op[2])
     if k in ('list_lshift', 'list_rshift'):
         _, holder, L = op
         kind = 'preds' if k == 'list_lshift' else 'succs'
@@ -677,6 +687,22 @@ def execute(u, op):
         return u.T(op[1]).predecessors.remove(u.T(op[2]))
     if k == 'succs.remove':
         return u.T(op[1]).successors.remove(u.T(op[2]))
+    if k in ('preds.remove_all', 'succs.remove_all'):
+        a, kw = _flt_args(u, op[2])
+        lst = u.T(op[1]).predecessors if k.startswith('preds') else u.T(op[1]).successors
+        return [u.L(t) for t in lst.remove_all(*a, **kw)]
+    if k == 'linkview.get':
+        u.stale[op[1]] = (op[2], u.T(op[2][1]).predecessors if op[2][0] == 'preds' else u.T(op[2][1]).successors)
+        return None
+    if k == 'linkview.use':
+        _spec, view = u.stale[op[1]]
+        inner = op[2]
+        if inner[0].endswith('.append'):
+            return view.append(u.T(inner[2]))
+        if inner[0].endswith('.remove'):
+            return view.remove(u.T(inner[2]))
+        a, kw = _flt_args(u, inner[2])
+        return [u.L(t) for t in view.remove_all(*a, **kw)]
     if k == 'lshift':
         arg = u.T(op[2][0]) if op[3] else u.TS(op[2])
         u.T(op[1]) << arg
